@@ -569,7 +569,7 @@ def _twin_surrogates_r(int n_surrogates, int N, int dim, twins,
     cdef:
         int i, j, k, new_k, n_twins, rand
         object twins_k
-        ndarray[DFIELD_t, ndim=2] surrogates = np.empty(
+        ndarray[DFIELD_t, ndim=3] surrogates = np.empty(
             (n_surrogates, N, dim), dtype=DFIELD)
 
     # Initialize random number generator
